@@ -1395,6 +1395,11 @@ func SupportedTcbLevelsFromCollateral(quote any, options *Options) (pcs.TcbLevel
 	if options == nil {
 		return pcs.TcbLevel{}, pcs.TcbLevel{}, ErrOptionsNil
 	}
+	if options.Now == nil {
+		withNow := *options
+		withNow.Now = defaultTimeSet()
+		options = &withNow
+	}
 	if err := verifyCollateral(options); err != nil {
 		return pcs.TcbLevel{}, pcs.TcbLevel{}, err
 	}
@@ -1465,7 +1470,11 @@ func tdxQuoteV4(quote *pb.QuoteV4, options *Options) error {
 	options.pckCertExtensions = exts
 	options.chain = chain
 	if options.Now == nil {
-		options.Now = defaultTimeSet()
+		// Judge at the time of this call, without keeping that time in the caller's options:
+		// a re-used options value must not go on judging at the time of its first use.
+		withNow := *options
+		withNow.Now = defaultTimeSet()
+		return verifyEvidenceV4(quote, &withNow)
 	}
 	return verifyEvidenceV4(quote, options)
 }
